@@ -138,8 +138,8 @@ func ruleErrProp(r *Run, fn *ssa.Function, opts errPropOpts) {
 				cn := calleeName(c.Call)
 				for _, s := range opts.SinkCalls {
 					if strings.HasSuffix(cn, s) {
-						for _, a := range c.Call.Common().Args {
-							if a == x {
+						for i, a := range c.Call.Common().Args {
+							if a == x || (i < len(c.Args) && c.Args[i].V == x) {
 								sunk = true
 							}
 						}
